@@ -11,6 +11,8 @@ entries in random order, extra parameters (same-named at top level and nested, d
 calls each; the real get_converter / impl_converter / convert / ConversionRetort are run in-process and compared
 with the model driver on: converter produced or ProviderNotFoundError, every call's result (type-exact,
 field-wise) or TypeError.
+A fixed family run on every seed (`_tagged_same_type_cases`) declares a nested model with the same tagged hint
+(Annotated / NotRequired) on both sides, where tags must stay invisible to the linking rules.
 Second suite `link`: the linkings the real ModelCoercerProvider fetches for the top-level model pair (observed by a
 recording subclass at the end of the user recipe) against `fetchFieldLinking` of the model.
 Third suite `history`: 2-6 operations on ONE retort (the module-level API = the global retort, or a
@@ -93,6 +95,8 @@ TRUSTED = [
     "wrong accessor / parameter kind shows up as a disagreement)",
     "Python call binding as modelled by bindCall / bindSig (validated by the correspondence on calls with "
     "positional, keyword and defaulted arguments)",
+    "type hint tags of a field declaration (Annotated, NotRequired) are erased by the harness before the model sees "
+    "the shapes: the model has no tags (validated by the fixed family of same-tagged nested models)",
 ]
 
 
@@ -162,6 +166,17 @@ def note_structure(ctx: Ctx, case):
             ctx.dist[f"profile-{k}"] += 1
 
 
+def _as_is_suffix(rc, case, args, kwargs, real_value):
+    """names the call site of a result that differs from the linking rules: `:same-tagged-hint-passed-as-is` when
+    the value is what the rules give once every model declared with the same tagged hint (Annotated /
+    NotRequired) on both sides is passed through unchanged instead of being converted field by field"""
+    try:
+        alt = canon_value(rc.u, Spec(case, rc.u, tagged_as_is=True).expected(args, kwargs))
+    except Undefined:
+        return ""
+    return ":same-tagged-hint-passed-as-is" if alt == real_value else ""
+
+
 def check_case(ctx: Ctx, case, reply, suite="convert", rc=None):
     """runs the real library on one case; direct oracle; compares with the model reply (if any).
     returns (compared, disagreements)"""
@@ -206,7 +221,13 @@ def check_case(ctx: Ctx, case, reply, suite="convert", rc=None):
                 exp = canon_value(rc.u, spec.expected(args, kwargs))
             except Unlinked as e:
                 exp = None
-                if "value" in out:
+                if "value" in out and e.below_same_tagged_hint:
+                    ctx.fail("create:unlinked-field-accepted:below-same-tagged-hint",
+                             f"a converter was produced and passed a nested model through as is although the linking "
+                             f"rules leave its destination field {e} without a link: source and destination declare "
+                             f"the model with the same tagged hint (Annotated / NotRequired), where the refusal of "
+                             f"the model conversion is not final and the same-type rule takes over", case)
+                elif "value" in out:
                     ctx.fail("create:unlinked-field-accepted",
                              f"a converter was produced and returned a value although the linking rules leave the "
                              f"destination field {e} without a link (required, or optional under the forbidding policy)",
@@ -221,7 +242,7 @@ def check_case(ctx: Ctx, case, reply, suite="convert", rc=None):
                              f"calling the produced converter raised {out['exc']}; the documented result is "
                              f"{json.dumps(exp)[:300]}", case)
                 elif out["value"] != exp:
-                    ctx.fail("result:differs-from-linking-rules",
+                    ctx.fail("result:differs-from-linking-rules" + _as_is_suffix(rc, case, args, kwargs, out["value"]),
                              f"converter returned {json.dumps(out['value'])[:400]} but the linking rules give "
                              f"{json.dumps(exp)[:400]}", case)
     if case["api"] == "convert" and any(r.get("exc") == "ProviderNotFoundError" for r in results):
@@ -383,7 +404,7 @@ def _expected(rc, spec, call):
     try:
         return ("value", canon_value(rc.u, spec.expected(args, kwargs)))
     except Unlinked as e:
-        return ("unlinked", str(e))
+        return ("unlinked", str(e), e.below_same_tagged_hint)
     except Undefined:
         return ("undefined",)
 
@@ -468,7 +489,7 @@ def check_history(ctx: Ctx, case, reply, suite="history", rc=None):
                 if plain_spec is not None and _expected(rc, plain_spec, call) != exp:
                     differs_from_plain = True
                 if exp[0] == "unlinked" and "value" in out:
-                    ctx.fail("history:unlinked-field-accepted",
+                    ctx.fail("history:unlinked-field-accepted" + (":below-same-tagged-hint" if exp[2] else ""),
                              f"{where}: a converter was returned and produced a value although the linking rules of "
                              f"the recipe in force leave the destination field {exp[1]} without a link", upto)
                 if st["op"] == "convert" and out.get("exc") == "ProviderNotFoundError":
@@ -567,6 +588,58 @@ def _fixed_cases():
     return out
 
 
+def _tagged_same_type_cases():
+    """regression family of the thorough-tier alarm C13-0d16db29ab3d (notes/C13-thorough-alarm.md): a nested model
+    `Inner` reached through a field both sides declare with the same hint - bare (control), `NotRequired[Inner]`,
+    `Annotated[Inner, "m"]` or both tags - while the recipe makes the conversion Inner -> Inner impossible (a
+    link_function parameter matching no field; a link between fields no coercer connects) or leaves it possible.
+    The linking rules know no tags: the impossible ones have no converter, the possible one rebuilds `Inner` with the
+    constant. The unrepaired TypeHintTagsUnwrappingProvider demoted the refusal to a non-terminal one and
+    SameTypeCoercerProvider then passed the nested object through as is."""
+    from harness.props.c13_gen import atom_json
+    from harness.props.c13_world import LEAF_ANY, LEAF_INT, LEAF_STR, leaf, model_ty
+    A, I, St = leaf(LEAF_ANY), leaf(LEAF_INT), leaf(LEAF_STR)
+    name = lambda n: {"p": "name", "n": n}  # noqa: E731
+    const_a = {"k": "link_constant", "dst": name("a"), "value": atom_json(7)}
+    causes = [
+        ("function-parameter-unmatched", I, atom_json(2),
+         [const_a, {"k": "link_function", "dst": {"p": "names", "ns": ["b", "zz"]}, "f": 1, "fname": None,
+                    "params": [{"name": "model", "kind": "pos_only", "ty": A},
+                               {"name": "missing", "kind": "kw_only", "ty": A}]}]),
+        ("no-coercer-for-linked-pair", St, atom_json("x"),
+         [const_a, {"k": "link", "src": name("a"), "dst": name("b"), "coercer": None}]),
+        ("linkable", I, atom_json(2), [const_a]),
+    ]
+    variants = [("dataclass", {}), ("typeddict", {"not_required": True}), ("typeddict", {"annotated": "m"}),
+                ("typeddict", {"not_required": True, "annotated": "m"}), ("dataclass", {"annotated": "m"}),
+                ("namedtuple", {"annotated": "m"}), ("attrs", {"annotated": "m"})]
+    out = []
+    for kind, tag in variants:
+        for _cause, b_ty, b_val, recipe in causes:
+            inner = {"id": 0, "role": "src", "kind": kind, "name": "Inner0",
+                     "fields": [{"id": "a", "ty": I}, {"id": "b", "ty": b_ty}]}
+            outer = {"id": 1, "role": "src", "kind": kind, "name": "Outer1",
+                     "fields": [{"id": "inner", "ty": model_ty(0), **tag}]}
+            outer_val = {"v": "obj", "cls": 1, "fields": [
+                ["inner", {"v": "obj", "cls": 0, "fields": [["a", atom_json(1)], ["b", b_val]]}]]}
+            # the copy pair Outer -> Outer
+            out.append({"classes": [inner, outer], "api": "get_converter", "fname": None, "recipe": recipe, "split": 0,
+                        "sig": {"params": [{"name": "src", "kind": "pos_only", "ty": model_ty(1)}], "ret": model_ty(1)},
+                        "calls": [{"args": [outer_val], "kwargs": []}]})
+            # an extra parameter of the destination field's own class (the shape of the alarm)
+            src = {"id": 2, "role": "src", "kind": kind, "name": "Src2", "fields": [{"id": "z", "ty": I}]}
+            top = {"id": 3, "role": "dst", "kind": kind, "name": "Top3",
+                   "fields": [{"id": "o", "ty": model_ty(1)}, {"id": "z", "ty": I}]}
+            src_val = {"v": "obj", "cls": 2, "fields": [["z", atom_json(5)]]}
+            out.append({"classes": [inner, outer, src, top], "api": "impl_converter", "fname": None, "recipe": recipe,
+                        "split": 0,
+                        "sig": {"params": [{"name": "s", "kind": "pos_only", "ty": model_ty(2)},
+                                           {"name": "o", "kind": "pos_or_kw", "ty": model_ty(1)}], "ret": model_ty(3)},
+                        "calls": [{"args": [src_val, outer_val], "kwargs": []},
+                                  {"args": [src_val], "kwargs": [["o", outer_val]]}]})
+    return out
+
+
 def run(ctx: Ctx):
     drv = None
     if ctx.driver_ok:
@@ -574,7 +647,7 @@ def run(ctx: Ctx):
             drv = Driver("drv_c13")
         except InfraError:
             drv = None
-    run_cases(ctx, _fixed_cases(), drv, "convert")
+    run_cases(ctx, _fixed_cases() + _tagged_same_type_cases(), drv, "convert")
     n = ctx.budget(1800, 19000)
     batch = 500
     done = 0
